@@ -10,13 +10,13 @@ use wow_mpq::{Archive, Error, hash_string};
 /// Structural trigger predicates evaluated on the witness (used in signatures; DESIGN.md §4):
 /// single-unit vs multi-sector, and whether some stored unit compresses at more than 1000:1
 /// (the ratio at which security.rs starts refusing the library's own output).
-fn content_trigger(f: &FileSpec, cfg: &Cfg) -> String {
+fn content_trigger(f: &FileSpec, cfg: &Cfg, method: u8) -> String {
     let s = cfg.sector_size();
     let multi = f.data.len() > s;
     let mut hot = false;
-    if cfg.method != 0 && !is_lossy(cfg.method) {
+    if method != 0 && !is_lossy(method) {
         for unit in f.data.chunks(s.max(1)) {
-            if let Ok(Ok(c)) = trap(|| wow_mpq::compress(unit, cfg.method)) {
+            if let Ok(Ok(c)) = trap(|| wow_mpq::compress(unit, method)) {
                 if c.len() > 1 && c.len() < unit.len() && unit.len() / (c.len() - 1) > 1000 {
                     hot = true;
                 }
@@ -27,18 +27,20 @@ fn content_trigger(f: &FileSpec, cfg: &Cfg) -> String {
 }
 
 /// The read-back oracle, shared shape with C02/C07/C12 (kept local: the oracle must not depend on repo helpers).
-pub fn check_archive(c: &mut Case, cfg: &Cfg, files: &[FileSpec], path: &std::path::Path, rng: &mut Rng) {
-    let lossy = is_lossy(cfg.method);
-    let mname = method_name(cfg.method);
+/// `per` = the compression selector each file was added with (one per file; the archive-wide one unless the set is mixed).
+pub fn check_archive(c: &mut Case, cfg: &Cfg, files: &[FileSpec], per: &[u8], path: &std::path::Path, rng: &mut Rng) {
+    let amname = method_name(cfg.method);
     let mut ar = match Archive::open(path) {
         Ok(a) => a,
         Err(e) => {
-            c.violate(format!("open-failed-after-build-ok|v{}|{}|tbl{}", cfg.version, mname, cfg.tblcomp as u8), format!("build returned Ok but Archive::open failed: {e}"), cfg.to_json());
+            c.violate(format!("open-failed-after-build-ok|v{}|{}|tbl{}", cfg.version, amname, cfg.tblcomp as u8), format!("build returned Ok but Archive::open failed: {e}"), cfg.to_json());
             return;
         }
     };
     // --- every file under every spelling
-    for f in files {
+    for (fi, f) in files.iter().enumerate() {
+        let lossy = is_lossy(per[fi]);
+        let mname = method_name(per[fi]);
         for (sp, spk) in spellings(&f.name) {
             c.count("spellings_checked", 1);
             let info = match ar.find_file(&sp) {
@@ -56,7 +58,7 @@ pub fn check_archive(c: &mut Case, cfg: &Cfg, files: &[FileSpec], path: &std::pa
                 c.violate(format!("reported-size-ne-length|v{}|{}", cfg.version, mname), format!("find_file({:?}).file_size = {} but content length = {}", sp, info.file_size, f.data.len()), cfg.to_json());
             }
             let got = trap(|| ar.read_file(&sp));
-            let trig = content_trigger(f, cfg);
+            let trig = content_trigger(f, cfg, per[fi]);
             match got {
                 Err(p) => c.violate(format!("read-panic|{}|{}", mname, p.sig()), format!("read_file({:?}) panicked: {}", sp, p.msg), json!({"cfg": cfg.to_json(), "file": brief(&f.data)})),
                 Ok(Err(e)) => {
@@ -90,7 +92,7 @@ pub fn check_archive(c: &mut Case, cfg: &Cfg, files: &[FileSpec], path: &std::pa
     let listed = match trap(|| ar.list()) {
         Ok(r) => Some(r),
         Err(p) => {
-            c.violate(format!("list-panic|{}|{}", mname, p.sig()), format!("list() panicked: {}", p.msg), cfg.to_json());
+            c.violate(format!("list-panic|{}|{}", amname, p.sig()), format!("list() panicked: {}", p.msg), cfg.to_json());
             None
         }
     };
@@ -254,10 +256,91 @@ fn main() {
             files.insert(at, FileSpec { name, class: "same-name-twice", data });
             dup_kind = Some(kind);
         }
-        let desc = json!({"cfg": cfg.to_json(), "files": files.iter().map(|f| json!({"name": f.name, "len": f.data.len(), "class": f.class})).collect::<Vec<_>>()});
+        // every eighth point carries 40..300 further tiny files, so that file counts cross the sizes the tables are laid out for
+        let many = idx % 8 == 5;
+        if many {
+            let extra = 40 + rng.usize(261);
+            for k in 0..extra {
+                let dl = rng.usize(41);
+                files.push(FileSpec { name: gen_name(&mut rng, 1000 + k), class: "tiny", data: rng.bytes(dl) });
+            }
+        }
+        // every fourth point is a *mixed* set - the statement quantifies method and encryption per file: each file gets its own
+        // selector (the archive-wide one or a lossless one), its own encryption mode and its own way into the builder (bytes or a
+        // path on disk; with explicit options or through the default-compression entry points)
+        let mixed = idx % 4 == 1;
+        let mut plan: Vec<(u8, u8, u8)> = Vec::new(); // (method, enc, via)
+        for _ in 0..files.len() {
+            if mixed {
+                let via = rng.below(4) as u8;
+                if via >= 2 {
+                    plan.push((cfg.method, 0, via));
+                } else {
+                    let m = *rng.pick(&[0x00u8, 0x02, 0x10, 0x12, 0x20, cfg.method, cfg.method]);
+                    plan.push((m, rng.below(3) as u8, via));
+                }
+            } else {
+                plan.push((cfg.method, cfg.enc, 0));
+            }
+        }
+        let per: Vec<u8> = plan.iter().map(|p| p.0).collect();
+        // a third of the mixed sets with a listfile bring the listfile along themselves (the added names in another order, LF or CRLF)
+        let ext_listfile = mixed && cfg.listfile && idx % 3 == 0;
+        let desc = json!({"cfg": cfg.to_json(), "mixed": mixed, "many": many, "external_listfile": ext_listfile,
+            "files": files.iter().zip(plan.iter()).take(24).map(|(f, p)| json!({"name": f.name, "len": f.data.len(), "class": f.class, "method": method_name(p.0), "enc": p.1, "via": p.2})).collect::<Vec<_>>(), "nfiles": files.len()});
         let path = scratch.join(format!("c01-{idx}.mpq"));
-        run.case(idx, &cfg.class(), desc, |c| {
-            let b = add_files(cfg.builder(), &cfg, &files);
+        let srcdir = scratch.join(format!("c01-{idx}-src"));
+        let class = if mixed || many { format!("{}|mixed{}|many{}|ext{}", cfg.class(), mixed as u8, many as u8, ext_listfile as u8) } else { cfg.class() };
+        run.case(idx, &class, desc, |c| {
+            let mut b = cfg.builder();
+            if mixed {
+                let _ = std::fs::create_dir_all(&srcdir);
+                for (i, (f, &(m, enc, via))) in files.iter().zip(plan.iter()).enumerate() {
+                    let src = srcdir.join(format!("{i}.bin"));
+                    if via == 1 || via == 3 {
+                        if std::fs::write(&src, &f.data).is_err() {
+                            c.inconclusive("could not write a source file into the scratch directory");
+                            return;
+                        }
+                    }
+                    c.count(&format!("mixed_via{via}_enc{enc}"), 1);
+                    b = match (via, enc) {
+                        (0, 0) => b.add_file_data_with_options(f.data.clone(), &f.name, m, false, 0),
+                        (0, 1) => b.add_file_data_with_encryption(f.data.clone(), &f.name, m, false, 0),
+                        (0, _) => b.add_file_data_with_encryption(f.data.clone(), &f.name, m, true, 0),
+                        (1, 0) => b.add_file_with_options(&src, &f.name, m, false, 0),
+                        (1, 1) => if i % 2 == 0 { b.add_file_with_options(&src, &f.name, m, true, 0) } else { b.add_file_with_encryption(&src, &f.name, m, false, 0) },
+                        (1, _) => b.add_file_with_encryption(&src, &f.name, m, true, 0),
+                        (2, _) => b.add_file_data(f.data.clone(), &f.name),
+                        _ => b.add_file(&src, &f.name),
+                    };
+                }
+                if ext_listfile {
+                    let mut names: Vec<String> = files.iter().map(|f| f.name.clone()).collect();
+                    names.push("(listfile)".into());
+                    if cfg.has_attributes() {
+                        names.push("(attributes)".into());
+                    }
+                    let rot = idx as usize % names.len();
+                    names.rotate_left(rot);
+                    let eol = if idx % 2 == 0 { "\r\n" } else { "\n" };
+                    let lf = srcdir.join("listfile.txt");
+                    let body: String = names.iter().map(|n| format!("{n}{eol}")).collect();
+                    if std::fs::write(&lf, body).is_err() {
+                        c.inconclusive("could not write the external listfile into the scratch directory");
+                        return;
+                    }
+                    b = b.listfile_option(wow_mpq::ListfileOption::External(lf));
+                    c.count("external_listfiles", 1);
+                }
+                c.count("mixed_sets", 1);
+            } else {
+                b = add_files(b, &cfg, &files);
+            }
+            if many {
+                c.count("many_file_sets", 1);
+                c.count("many_file_total", files.len() as u64);
+            }
             let r = trap(|| b.build(&path));
             match r {
                 Err(p) => {
@@ -283,10 +366,11 @@ fn main() {
                     if let Some(k) = dup_kind {
                         c.count(&format!("same_name_twice_built|{k}"), 1);
                     }
-                    check_archive(c, &cfg, &files, &path, &mut rng);
+                    check_archive(c, &cfg, &files, &per, &path, &mut rng);
                 }
             }
             let _ = std::fs::remove_file(&path);
+            let _ = std::fs::remove_dir_all(&srcdir);
         });
     }
     run.done();
